@@ -26,7 +26,9 @@ def _numpy():
     with warnings.catch_warnings():
         warnings.simplefilter("ignore")
         for name, typ in (("int", int), ("float", float), ("bool", bool),
-                          ("object", object), ("str", str), ("complex", complex)):
+                          ("object", object), ("str", str), ("complex", complex),
+                          ("NINF", -np.inf), ("PINF", np.inf), ("Inf", np.inf),
+                          ("Infinity", np.inf), ("NaN", np.nan), ("float_", np.float64)):
             if name not in np.__dict__:
                 setattr(np, name, typ)
 
